@@ -940,7 +940,7 @@ static int gen_starve(Plan *p) {
 static int gen(Plan *p, uint64_t seed) {
   rs = seed;
   memset(p, 0, offsetof(Plan, pre));
-  if (maxt_env > 1 && below(40) == 0 && gen_starve(p) == 0) return 0; // retry depth: one plan in forty starves its victims
+  if (maxt_env > 1 && below(300) == 0 && gen_starve(p) == 0) return 0; // retry depth: one plan in three hundred starves its victims (each costs some 7000 steps)
   p->build = below(2);
   int x = below(20);
   p->nthreads = x < 1 ? 1 : x < 11 ? 2 : x < 17 ? 3 : 4;
